@@ -67,6 +67,14 @@ def main(argv=None) -> int:
                 audit["sensitivity"] = run_audit([args.prop])
             except Exception as ex:
                 audit["sensitivity"] = {"error": f"{type(ex).__name__}: {ex}"}
+            try:
+                from .selftest import run_seeds
+                audit["seeded_changes"] = run_seeds([args.prop])
+                ss = audit["seeded_changes"]
+                if ss["seeds_total"]:
+                    print(f"seeded changes: detected {ss['seeds_detected']}/{ss['seeds_total']}, skipped {ss['seeds_skipped']}")
+            except Exception as ex:
+                audit["seeded_changes"] = {"error": f"{type(ex).__name__}: {ex}"}
             if hasattr(mod, "audit"):
                 try:
                     audit["deep"] = mod.audit(ctx)
